@@ -197,10 +197,38 @@ class Nia1Raw(Raw):
                   "then sres_agree (SOk (eia1 key count bearer dir msg)) obs else true end)")
 
 
+class Concurrent(Stream):
+    """NASEncrypt / NASMacCalculate called for 8 UEs at once give what they give one call at a time (the algorithms are
+    functions of their arguments: c07_state_independent)"""
+    name = "concurrent"
+    sub = "conc"
+    model_check = None
+    spec_check = None
+    requires = []
+
+    def generate(self, rng, tier):
+        n = 300 if tier == "quick" else 5000
+        return [{"family": "nas_cipher", "goroutines": 8, "iters": n}, {"family": "nas_mac", "goroutines": 8, "iters": n}]
+
+    def classify(self, c, o):
+        return c["family"] + (":same" if o.get("different") == 0 else ":different")
+
+    def key(self, c, o):
+        return "conc-" + c["family"]
+
+    def coq_case(self, c, o):
+        return ""
+
+    def direct_check(self, c, o):
+        if o.get("different", 1) != 0 or "harness_error" in o or "panic" in o:
+            return "concurrent use for different UEs changes the results: %s" % (o.get("first") or o)
+        return None
+
+
 class C07(Check):
     pid = "C07"
     prop_files = ["Properties/C07.v"]
-    streams = [Nea(), Nia(), Nea1Raw(), Nia1Raw()]
+    streams = [Nea(), Nia(), Nea1Raw(), Nia1Raw(), Concurrent()]
     trusted = ["Coq 8.16.1 kernel incl. vm_compute (no native_compute)", "no axioms (Print Assumptions: closed under the global context)",
                "hand-written models Model/Snow3g.v, Model/Security.v tied to the Go code by the correspondence streams nea, nia, nea1raw, nia1raw "
                "(clean and dirtied package state); S-box tables taken from the source by the translator gen-snow3g",
